@@ -119,7 +119,7 @@ def model_task(task):
     rng = random.Random(f"c02/{seed}/{idx}")
     c = par.client(profile)
     all_inputs = trees(max_nodes)
-    small = trees(3) if max_nodes > 4 else rng.sample(trees(3), 50)
+    small = trees(3) if max_nodes > 4 else rng.sample(trees(3), 36)
     out = {"viol": [], "inconc": {}, "evals": 0, "nontrivial": 0, "distinct": set(), "samples": [], "skipped": 0,
            "by_kind": {}}
 
@@ -288,7 +288,7 @@ def eq_task(task):
     rng = random.Random(f"c02eq/{seed}/{idx}")
     c = par.client(profile)
     all_inputs = trees(max_nodes)
-    small = trees(3) if max_nodes > 4 else rng.sample(trees(3), 60)
+    small = trees(3) if max_nodes > 4 else rng.sample(trees(3), 40)
     extra = [[0, [0, S("a")], Obj([(S("a"), [0])])], Obj([(S("a"), Obj([(S("b"), 0)])), (S("b"), [0, 0])]), S("abc"),
              [0, 0, 0, 0], Obj([(0, 0), (S("a"), None)]), True, 1.5]
     out = {"viol": [], "inconc": {}, "evals": 0, "nontrivial": 0, "distinct": set(), "samples": [], "by_kind": {}}
@@ -346,10 +346,10 @@ def main():
     if thorough:
         max_nodes, sample_n = 5, 400
     else:
-        max_nodes, sample_n = 4, 16
+        max_nodes, sample_n = 4, 10
         # quick: every single atom and every shape, and a seeded third of the depth-2 products
-        comps = [x for i, x in enumerate(comps) if i < 30 or rng.random() < 0.2]
-        eqs = [x for x in eqs if x[0] not in ("pipe", "comma", "alt", "if") or rng.random() < 0.12]
+        comps = [x for i, x in enumerate(comps) if i < 30 or rng.random() < 0.08]
+        eqs = [x for x in eqs if x[0] not in ("pipe", "comma", "alt", "if") or rng.random() < 0.08]
     rng.shuffle(comps)
     rng.shuffle(eqs)
     tasks = []
